@@ -80,7 +80,7 @@ func c03(r *core.Run) {
 	pinnedCallCensus(r, "R1.census", "c03_linearity_edges", "sema", []string{
 		"checkConditionalBranches", "checkPotentiallyUnevaluated", "MergeBranches", "checkResourceLoss", "leaveValueScope",
 		"checkResourceMoveOperation", "recordResourceInvalidation", "checkResourceUseAfterInvalidation", "maybeAddResourceInvalidation",
-		"MaybeReturned", "MaybeJumped", "AddInvalidation", "RemoveTemporaryMoveInvalidation", "checkResourceFieldNesting",
+		"MaybeReturned", "MaybeJumped", "AddInvalidation", "RemoveTemporaryMoveInvalidation", "checkResourceFieldNesting", "checkUnusedExpressionResourceLoss",
 	}, "a linearity violation on that construct would no longer be detected by the checker")
 	r.Floor("R1.census", 50)
 	c03Structure(r)
